@@ -22,6 +22,7 @@ EXTERNS = ['base64', 'bitflags', 'chacha20', 'curve25519_dalek', 'generic_array'
 # configuration (CFGS_SERDE) that annotates only that file.
 CFGS = ['feature="u64_backend"', 'feature="nightly"', 'feature="base64"']
 CFGS_SERDE = CFGS + ['feature="serde"']
+ACTIVE_CFGS = None  # set by check.py for a non-default configuration (configs.json)
 
 REFUTATIONS = (
     'postcondition not satisfied',
@@ -139,7 +140,7 @@ def module_of(relfile):
 def run_verus(scratch, modules=None, rlimit=20, seed=None, threads=None, extra=None, timeout=3000, cfgs=None):
     cmd = ['verus', 'src/lib.rs', '--crate-type', 'lib', '--edition', '2021', '--crate-name', 'dryoc']
     cmd += extern_args()
-    for c in (cfgs or CFGS):
+    for c in (cfgs or ACTIVE_CFGS or CFGS):
         cmd += ['--cfg', c]
     cmd += ['--no-trait-conflicts', '--triggers-mode', 'silent', '--rlimit', str(rlimit), '--output-json', '--time',
             '--error-format=json', '--multiple-errors', '4', '--no-report-long-running']
